@@ -151,7 +151,7 @@ Definition obs_ok (s : state) (f : frame) (rest : list frame) (k : ekind) : bool
       | _ => false
       end
   | KFail cs _ =>
-      match unwind rest with
+      match match f with FScript r _ _ => unwind r rest | _ => None end with
       | Some (cs', _) => list_nat_eqb cs cs'
       | None => false
       end
